@@ -2,7 +2,7 @@
    each closed by [exact] of a lemma proved in Proofs/DotP.v, with Print Assumptions beneath.
    V is any carrier with a zero, an addition and a multiplication satisfying comm_semiring
    (Spec/NpDot.v); Z is an instance (Z_comm_semiring). *)
-From Coq Require Import ZArith List Bool.
+From Coq Require Import ZArith List Bool Sorting.Sorted.
 From Verif Require Import Py Shape COO GCXS NpDot Dot DotP.
 Import ListNotations.
 Open Scope Z_scope.
@@ -190,3 +190,141 @@ Theorem csc_ndarray_den :
            csr_den V vzero r i k = np_matmul2 V vzero vadd vmul n_in (fun k j => csr_den V vzero a j k) b k i.
 Proof. exact csc_ndarray_den_proof. Qed.
 Print Assumptions csc_ndarray_den.
+
+(* ---------------------------------------------------------------------------------------------------------------
+   The remaining kernels of _dot.  "Bounds": the dense kernels write out[r, c] += v only at positions inside the
+   output (the update streams csr_nd_updates / csc_nd_updates / nd_coo_updates are what the loops execute,
+   Proofs/DotP.v dot_*_updates); the sparse ones fill their pre-sized buffers exactly (kres = KOk) or append to
+   lists. *)
+
+(* _dot_csr_ndarray: GCXS(0,) @ ndarray, dense result *)
+Theorem dot_csr_ndarray_den :
+  forall (V : Type) (vzero : V) (vadd vmul : V -> V -> V), comm_semiring vzero vadd vmul ->
+  forall (n_row n_in n_col : Z) (a : csr V) (b : Z -> Z -> V),
+    csr_wfb n_row n_in a = true ->
+    Forall (fun u => 0 <= fst (fst u) < n_row /\ 0 <= snd (fst u) < n_col) (csr_nd_updates V vmul n_row n_col a b)
+    /\ forall i j, 0 <= i < n_row -> 0 <= j < n_col ->
+         dot_csr_ndarray V vzero vadd vmul n_row n_col a b i j
+         = np_matmul2 V vzero vadd vmul n_in (csr_den V vzero a) b i j.
+Proof. exact dot_csr_ndarray_den_proof. Qed.
+Print Assumptions dot_csr_ndarray_den.
+
+(* _dot_csr_ndarray_sparse with _csr_ndarray_count_nnz: it returns (count = cells written), the result is a
+   well-formed CSR matrix and means the product.  The cell (i, j) is stored iff some b[k, j] != 0 for a stored
+   k of row i — in the count AND in the kernel (a kernel that stored `val != 0` instead would end in KTail). *)
+Theorem csr_ndarray_sparse_correct :
+  forall (V : Type) (vzero : V) (vadd vmul : V -> V -> V) (veqb : V -> V -> bool),
+  comm_semiring vzero vadd vmul -> (forall x, veqb x vzero = true -> x = vzero) ->
+  forall (a : csr V) (b : Z -> Z -> V) (n_row n_in n_col : Z), csr_wfb n_row n_in a = true -> 0 <= n_col ->
+    exists r, dot_csr_ndarray_sparse V vzero vadd vmul veqb n_row n_col a b = KOk r
+      /\ Z.of_nat (length (m_data r)) = fst (csr_ndarray_count_nnz V vzero veqb n_row n_col (m_indices a) (m_indptr a) b)
+      /\ csr_wfb n_row n_col r = true
+      /\ forall i j, 0 <= i < n_row -> 0 <= j < n_col ->
+           csr_den V vzero r i j = np_matmul2 V vzero vadd vmul n_in (csr_den V vzero a) b i j.
+Proof. exact csr_ndarray_sparse_full. Qed.
+Print Assumptions csr_ndarray_sparse_correct.
+
+(* _dot_csc_ndarray: GCXS(1,) @ ndarray, dense result (a: CSC triple of the m x n_in operand) *)
+Theorem dot_csc_ndarray_den :
+  forall (V : Type) (vzero : V) (vadd vmul : V -> V -> V), comm_semiring vzero vadd vmul ->
+  forall (m n_in p : Z) (a : csr V) (b : Z -> Z -> V),
+    csr_wfb n_in m a = true ->
+    Forall (fun u => 0 <= fst (fst u) < m /\ 0 <= snd (fst u) < p) (csc_nd_updates V vmul n_in p a b)
+    /\ forall r j, 0 <= j < p ->
+         dot_csc_ndarray V vzero vadd vmul n_in p a b r j
+         = np_matmul2 V vzero vadd vmul n_in (fun r i => csr_den V vzero a i r) b r j.
+Proof. exact dot_csc_ndarray_den_proof. Qed.
+Print Assumptions dot_csc_ndarray_den.
+
+(* _dot_coo_ndarray_type_sparse: COO @ ndarray, sparse result.  On a canonical COO operand (rows non-decreasing,
+   coordinates pairwise distinct, columns in range) it returns with len(data1) units of fuel, the appended cells
+   are strictly increasing in (row, column) — the promises sorted=True, has_duplicates=False of _dot — with
+   columns inside the output, and they mean s1 @ x2.T. *)
+Theorem dot_coo_ndarray_sparse_correct :
+  forall (V : Type) (vzero : V) (vadd vmul : V -> V -> V) (veqb : V -> V -> bool),
+  comm_semiring vzero vadd vmul -> (forall x, veqb x vzero = true -> x = vzero) ->
+  forall (a2 : Z -> Z -> V) (rows cols : list Z) (data : list V) (n_in out_cols : Z) (fuel : nat),
+    length rows = length data -> length cols = length data ->
+    NoDup (combine rows cols) -> Forall (fun c => 0 <= c < n_in) cols ->
+    (forall s t, 0 <= s <= t -> t < Z.of_nat (length data) -> znth rows s 0 <= znth rows t 0) ->
+    (length data <= fuel)%nat ->
+    exists o, dot_coo_ndarray_sparse V vzero vadd vmul veqb fuel rows cols data a2 out_cols = KOk o
+      /\ StronglySorted cell_lt o
+      /\ Forall (fun c => 0 <= snd (fst c) < out_cols) o
+      /\ forall i j, 0 <= j < out_cols ->
+           cden V vzero o i j
+           = np_matmul2 V vzero vadd vmul n_in (coo_cells_den V vzero rows cols data) (fun c j => a2 j c) i j.
+Proof. exact dot_coo_ndarray_sparse_proof. Qed.
+Print Assumptions dot_coo_ndarray_sparse_correct.
+
+(* _dot_ndarray_coo: ndarray @ COO, dense result *)
+Theorem dot_ndarray_coo_den :
+  forall (V : Type) (vzero : V) (vadd vmul : V -> V -> V), comm_semiring vzero vadd vmul ->
+  forall (m n_in p : Z) (a1 : Z -> Z -> V) (rows2 cols2 : list Z) (data2 : list V),
+    length rows2 = length data2 -> length cols2 = length data2 ->
+    NoDup (combine rows2 cols2) -> Forall (fun r => 0 <= r < n_in) rows2 -> Forall (fun c => 0 <= c < p) cols2 ->
+    Forall (fun u => 0 <= fst (fst u) < m /\ 0 <= snd (fst u) < p)
+           (nd_coo_updates V vmul m a1 (combine (combine rows2 cols2) data2))
+    /\ forall i j, 0 <= i < m ->
+         dot_ndarray_coo V vzero vadd vmul m a1 rows2 cols2 data2 i j
+         = np_matmul2 V vzero vadd vmul n_in a1 (coo_cells_den V vzero rows2 cols2 data2) i j.
+Proof. exact dot_ndarray_coo_den_proof. Qed.
+Print Assumptions dot_ndarray_coo_den.
+
+(* _dot_ndarray_coo_type_sparse: ndarray @ COO, sparse result; the COO operand is b.T (cells: column of b —
+   non-decreasing —, row of b, value).  The appended cells are strictly increasing in (row, column), inside the
+   m x p output, and mean the product. *)
+Theorem dot_ndarray_coo_sparse_correct :
+  forall (V : Type) (vzero : V) (vadd vmul : V -> V -> V) (veqb : V -> V -> bool),
+  comm_semiring vzero vadd vmul -> (forall x, veqb x vzero = true -> x = vzero) -> veqb vzero vzero = true ->
+  forall (a1 : Z -> Z -> V) (cols2 rows2 : list Z) (data2 : list V) (m n_in p : Z),
+    length cols2 = length data2 -> length rows2 = length data2 ->
+    NoDup (combine cols2 rows2) -> StronglySorted Z.le cols2 ->
+    Forall (fun c => 0 <= c < p) cols2 -> Forall (fun r => 0 <= r < n_in) rows2 ->
+    let o := dot_ndarray_coo_sparse V vzero vadd vmul veqb m a1 cols2 rows2 data2 in
+    StronglySorted cell_lt o
+    /\ Forall (fun x => 0 <= fst (fst x) < m /\ 0 <= snd (fst x) < p) o
+    /\ forall i j, 0 <= i < m ->
+         cden V vzero o i j
+         = np_matmul2 V vzero vadd vmul n_in a1 (fun r j => coo_cells_den V vzero cols2 rows2 data2 j r) i j.
+Proof. exact dot_ndarray_coo_sparse_proof. Qed.
+Print Assumptions dot_ndarray_coo_sparse_correct.
+
+(* ---------------------------------------------------------------------------------------------------------------
+   GCXS(..., prune=True) and the shared dense meaning. *)
+
+(* GCXS._prune (drop the stored values equal to the fill, recompute indptr by bincount/cumsum) keeps a well-formed
+   CSR matrix well formed and does not change its dense meaning. *)
+Theorem prune_csr_correct :
+  forall (V : Type) (vzero : V) (veqb : V -> V -> bool), (forall x, veqb x vzero = true -> x = vzero) ->
+  forall (n_row n_col : Z) (m : csr V),
+    csr_wfb n_row n_col m = true ->
+    csr_wfb n_row n_col (prune_csr V vzero veqb n_row m) = true
+    /\ forall i k, 0 <= i < n_row -> csr_den V vzero (prune_csr V vzero veqb n_row m) i k = csr_den V vzero m i k.
+Proof. exact prune_csr_correct_proof. Qed.
+Print Assumptions prune_csr_correct.
+
+(* csr_den, in which the theorems above are stated, is the dense meaning gden that Model/GCXS.v (shared by all
+   properties) gives to the 2-d GCXS with compressed_axes = (0,) built from the same triple. *)
+Theorem csr_den_gden :
+  forall (V : Type) (vzero : V) (n_row n_col : Z) (m : csr V) (i k : Z),
+    csr_wfb n_row n_col m = true -> 0 <= i < n_row ->
+    gden (mkGCXS [n_row; n_col] [0] (m_data m) (m_indices m) (m_indptr m) vzero) [i; k] = csr_den V vzero m i k.
+Proof. exact csr_den_gden_proof. Qed.
+Print Assumptions csr_den_gden.
+
+(* ---------------------------------------------------------------------------------------------------------------
+   _einsum_single (one sparse operand, "lhs->rhs"): selector for repeated labels, projection/permutation by
+   perm = [lhs.index(ix) for ix in rhs], duplicates summed (has_duplicates=True): on a canonical zero-filled COO
+   operand whose repeated labels have equal extents, the summed meaning of the result is np.einsum's
+   (Spec/NpDot.v np_einsum1).  (The result is NOT pruned: explicit zeros may be stored — C06's finding.) *)
+Theorem einsum_single_den :
+  forall (V : Type) (vzero : V) (vadd vmul : V -> V -> V), comm_semiring vzero vadd vmul ->
+  forall (lhs rhs : list Z) (c : coo V),
+    NoDup (c_coords c) -> Forall (in_range (c_shape c)) (c_coords c) -> length (c_data c) = length (c_coords c) ->
+    c_fill c = vzero -> es_shape_ok lhs (c_shape c) = true ->
+    exists r, einsum_single_m V lhs rhs c = Ok r
+      /\ c_shape r = a_shape (np_einsum1 V vzero vadd lhs rhs (mkArr (c_shape c) (den c)))
+      /\ forall o, den_sum V vzero vadd r o = a_at (np_einsum1 V vzero vadd lhs rhs (mkArr (c_shape c) (den c))) o.
+Proof. exact einsum_single_den_proof. Qed.
+Print Assumptions einsum_single_den.
